@@ -36,3 +36,72 @@ pub fn stub_type_equal<Src: ?Sized, Target: ?Sized>() -> bool {
 pub fn stub_random_state_new() -> ahash::RandomState {
     ahash::RandomState::with_seeds(1, 2, 3, 4)
 }
+
+/// `core::str::from_utf8` validates with word-at-a-time reads whose alignment Kani leaves
+/// nondeterministic, so its verdict never folds to a constant even on constant bytes (and every
+/// `String` length set under it turns symbolic).  This is the textbook byte-at-a-time validator:
+/// same predicate, constant on constant input.  Ill-formed input is outside the harnesses that use
+/// it (their text is concrete) and is reported as a failure rather than assumed away.
+pub fn stub_from_utf8(v: &[u8]) -> Result<&str, core::str::Utf8Error> {
+    let n = v.len();
+    let mut i = 0;
+    while i < n {
+        let b = v[i];
+        let extra = if b < 0x80 {
+            0
+        } else if b >= 0xC2 && b <= 0xDF {
+            1
+        } else if b >= 0xE0 && b <= 0xEF {
+            2
+        } else if b >= 0xF0 && b <= 0xF4 {
+            3
+        } else {
+            panic!("ill-formed UTF-8 is outside this harness");
+        };
+        if i + extra >= n + (extra == 0) as usize {
+            panic!("ill-formed UTF-8 is outside this harness");
+        }
+        let mut k = 1;
+        while k <= extra {
+            let c = v[i + k];
+            let (lo, hi) = if k == 1 {
+                match b {
+                    0xE0 => (0xA0, 0xBF),
+                    0xED => (0x80, 0x9F),
+                    0xF0 => (0x90, 0xBF),
+                    0xF4 => (0x80, 0x8F),
+                    _ => (0x80, 0xBF),
+                }
+            } else {
+                (0x80, 0xBF)
+            };
+            if c < lo || c > hi {
+                panic!("ill-formed UTF-8 is outside this harness");
+            }
+            k += 1;
+        }
+        i += extra + 1;
+    }
+    Ok(unsafe { core::str::from_utf8_unchecked(v) })
+}
+
+/// std's `RandomState::new` seeds SipHash from the OS (thread-local keys filled by a syscall Kani
+/// does not model).  Fixed keys: hash values are not part of any property here.
+pub fn stub_std_random_state_new() -> std::collections::hash_map::RandomState {
+    // RandomState is two u64 keys
+    unsafe { core::mem::transmute::<[u64; 2], std::collections::hash_map::RandomState>([1, 2]) }
+}
+
+/// `core::slice::memchr::memchr` switches to a word-at-a-time scan whose start depends on the
+/// pointer's alignment (nondeterministic under Kani).  The byte-at-a-time scan is the same
+/// function.
+pub fn stub_memchr(x: u8, text: &[u8]) -> Option<usize> {
+    let mut i = 0;
+    while i < text.len() {
+        if text[i] == x {
+            return Some(i);
+        }
+        i += 1;
+    }
+    None
+}
